@@ -1,6 +1,7 @@
 package main
 
 import (
+	"context"
 	"encoding/json"
 	"errors"
 	"fmt"
@@ -32,7 +33,7 @@ type c18F struct {
 	Kind string `json:"kind"`
 }
 
-var c18Kinds = []string{"generic", "not-found", "inactive", "serialization"}
+var c18Kinds = []string{"generic", "not-found", "inactive", "serialization", "ctx-cancelled"}
 var c18Flows = []string{"code", "code-oidc", "code-pkce", "code-pkce-noverifier", "refresh", "refresh-oidc", "refresh-reuse", "device", "device-oidc", "authorize-code", "implicit", "hybrid", "client_credentials", "password", "jwt-bearer", "client-assertion", "revocation", "par-push", "par-use", "code-replay"}
 
 const c18Marker = "STORAGEMARKER pq: password authentication failed for user hydra (host=10.42.7.13)"
@@ -276,6 +277,11 @@ func c18Run(c c18Case, res *WRes) {
 				}
 				if call.Name == "BeginTX" || call.Name == "Commit" {
 					inTxAtFault = true
+				}
+				if f.Kind == "ctx-cancelled" {
+					// the request's context is cancelled (client gone / deadline) and the store call fails with that error
+					w.CancelRequest()
+					return context.Canceled
 				}
 				return c18Err(f.Kind)
 			}
@@ -552,7 +558,7 @@ func init() {
 			}
 		}
 		r.Bounds = map[string]any{"flows": c18Flows, "stores": []string{"plain (non-transactional)", "transactional with real rollback (snapshot/restore of all tables)"}, "error_kinds": c18Kinds,
-			"single_faults": "every storage call index of the target request (incl. BeginTX / Commit / Rollback) x 4 error kinds", "crash_points": "before every storage call and after the last one", "fault_pairs": "first fault {generic, serialization} (all 4 kinds in thorough) at every index x second fault of every kind at every later index; fault followed by a crash at every later point", "fault_triples": "thorough: three generic failures at all increasing index triples"}
+			"single_faults": "every storage call index of the target request (incl. BeginTX / Commit / Rollback) x 5 error kinds (generic, not-found, inactive, serialization conflict, cancelled request context)", "crash_points": "before every storage call and after the last one", "fault_pairs": "first fault {generic, serialization} (all 4 kinds in thorough) at every index x second fault of every kind at every later index; fault followed by a crash at every later point", "fault_triples": "thorough: three generic failures at all increasing index triples"}
 		r.Rule = "for each flow the storage-call trace of a clean run is recorded; every single fault, every crash point and every listed pair is injected into the real request on a fresh provider, followed by a legitimate retry and attacker variants; distinct = distinct (flow, store, fault site/kind)"
 		r.Assumptions = []string{"not-found / inactive answers injected at lookup calls are indistinguishable from another store state (don't-care)", "record equality after rollback ignores session expiry fields (C07)", "a crash is simulated by unwinding the request at the call boundary; an open transaction is then rolled back as a database would"}
 		res := r.Pool.Do("c18", jobs, r.Deadline)
